@@ -845,6 +845,7 @@ func run(c *driver.Ctx) {
 			RouteTo:          []float64{0, 0.5}[rng.Intn(2)],
 			FailingExporters: []float64{0, 0, 0.25}[rng.Intn(3)],
 			CaseTwins:        rng.Intn(4) == 0, // ids and pipeline names that differ only in letter case
+			RepeatedMentions: rng.Intn(4) == 0, // a receiver / exporter listed twice in one pipeline
 		}
 		if rng.Intn(6) == 0 {
 			opt.UniqueProcessors = true
